@@ -154,14 +154,15 @@ class PerturbationCase(Case):
 
     family = "config/perturbations"
 
-    def __init__(self, cid, ptypes, pmin_sym=True):
+    def __init__(self, cid, ptypes, pmin_sym=True, scaled=False):
         self.id, self.ptypes = cid, tuple(ptypes)
+        self.scaled = scaled   # a variable scaler in the validation context (the bounds given are optimizer-domain ones)
         self.N = len(ptypes)
         self.family = "config/perturbations/" + ("relative" if "relative" in ptypes else "absolute")
         self.cfg0 = ens.ensemble_config(N=self.N, R=1, P=2, lower=0.0, upper=1.0, ptypes=list(ptypes), magnitudes=0.1)
 
     def describe(self):
-        return f"perturbation types {self.ptypes}"
+        return f"perturbation types {self.ptypes} variable_scaler={self.scaled}"
 
     def inputs(self, env):
         N = self.N
@@ -169,10 +170,14 @@ class PerturbationCase(Case):
         hi = env.reals("hi", N, lo=-10, hi=10)
         for j in range(N):
             env.assume(hi[j] - lo[j] >= Fraction(1, 100))
-        return {"lo": lo, "hi": hi, "m": env.reals("m", N, lo=Fraction(1, 1000), hi=10)}
+        d = {"lo": lo, "hi": hi, "m": env.reals("m", N, lo=Fraction(1, 1000), hi=10)}
+        if self.scaled:
+            d["s"] = env.reals("s", N, lo=Fraction(1, 10), hi=10)
+        return d
 
     def run(self, env, inp):
         from .common import clone_config, inject
+        tr = ens.make_transforms(var_scales=env.arr(inp["s"])) if self.scaled else None
         cfg = clone_config(self.cfg0)
         inject(cfg.variables, lower_bounds=env.arr(inp["lo"], False), upper_bounds=env.arr(inp["hi"], False))
         # the raw (as configured) gradient section
@@ -180,7 +185,7 @@ class PerturbationCase(Case):
         types = np.array([PerturbationType.ABSOLUTE if t == "absolute" else PerturbationType.RELATIVE for t in self.ptypes], dtype=np.ubyte)
         types.setflags(write=False)
         raw = cfg.gradient.model_copy(update={"perturbation_magnitudes": env.arr(inp["m"], False), "perturbation_types": types})
-        once = raw.fix_perturbations(cfg.variables, None)
+        once = raw.fix_perturbations(cfg.variables, tr)
         twice = once.fix_perturbations(cfg.variables, None)   # what re-validating a validated/dumped configuration does
         # the section object that was handed in is frozen: it is not rewritten, and it serves a second configuration
         # (other bounds) exactly like the first
@@ -190,7 +195,7 @@ class PerturbationCase(Case):
         lo2 = np.array([x - 1 for x in inp["lo"]], dtype=object)
         hi2 = np.array([x + 2 for x in inp["hi"]], dtype=object)
         inject(cfg2.variables, lower_bounds=env.arr(lo2, False), upper_bounds=env.arr(hi2, False))
-        other = raw.fix_perturbations(cfg2.variables, None)
+        other = raw.fix_perturbations(cfg2.variables, tr)
         return {"once": once, "twice": twice, "raw_after": raw_after, "other": other}
 
     def props(self, env, inp, oc):
@@ -201,7 +206,10 @@ class PerturbationCase(Case):
         m2 = np.asarray(vals(twice.perturbation_magnitudes), dtype=object)
         props = []
         for j in range(self.N):
-            exp = inp["m"][j] if self.ptypes[j] == "absolute" else (inp["hi"][j] - inp["lo"][j]) * inp["m"][j]
+            # absolute magnitudes are user-domain lengths (divided by the scale); relative ones are fractions of the
+            # bound range, which is already an optimizer-domain length here
+            sc = inp["s"][j] if self.scaled else SR(Fraction(1))
+            exp = inp["m"][j] / sc if self.ptypes[j] == "absolute" else (inp["hi"][j] - inp["lo"][j]) * inp["m"][j]
             props.append((f"v{j}.canonical_magnitude", close(m1[j], exp)))
             props.append((f"v{j}.revalidation_keeps_magnitude", close(m2[j], m1[j])))
         ra = oc.value["raw_after"]
@@ -210,7 +218,7 @@ class PerturbationCase(Case):
         props.append(("given_section.types_not_rewritten", SB(ra["types"] == ra["types_before"])))
         for j in range(self.N):
             props.append((f"v{j}.given_section.magnitude_not_rewritten", SB(mr.shape == (self.N,)) if mr.shape != (self.N,) else exact(mr[j], inp["m"][j])))
-            exp2 = inp["m"][j] if self.ptypes[j] == "absolute" else (inp["hi"][j] - inp["lo"][j] + 3) * inp["m"][j]
+            exp2 = inp["m"][j] / sc if self.ptypes[j] == "absolute" else (inp["hi"][j] - inp["lo"][j] + 3) * inp["m"][j]
             props.append((f"v{j}.second_configuration.canonical_magnitude", close(m3[j], exp2)))
         for nm in ("perturbation_magnitudes", "boundary_types", "perturbation_types"):
             props.append((f"{nm}.write_protected", SB(not getattr(once, nm).flags.writeable)))
@@ -395,6 +403,54 @@ class FrozenCase(Case):
                 ("dump_validate_roundtrip_equivalent", SB(r["dump_roundtrip_equivalent"]))]
 
 
+class LinearSectionCase(Case):
+    """A validated LinearConstraintsConfig object handed to two validations with a variable scaler: the object is
+    frozen (not rewritten), so both validations see the user's rows and give the same transformed rows."""
+
+    family = "config/linear-section"
+
+    def __init__(self, cid):
+        self.id = cid
+        self.cfg0 = make_config({"variables": {"initial_values": [0.0, 0.0]},
+                                 "linear_constraints": {"coefficients": [[1.0, 1.0]], "lower_bounds": [0.0], "upper_bounds": [1.0]}})
+
+    def describe(self):
+        return "LinearConstraintsConfig.apply_transformation twice on one object, symbolic rows, bounds, scales and offsets"
+
+    def inputs(self, env):
+        A = env.reals("A", (1, 2), lo=-5, hi=5)
+        env.assume(Or(Not(A[0, 0] == 0), Not(A[0, 1] == 0)))
+        return {"A": A, "lo": env.reals("lo", 1, lo=-10, hi=0), "hi": env.reals("hi", 1, lo=0, hi=10),
+                "s": env.reals("s", 2, lo=Fraction(1, 10), hi=10), "o": env.reals("o", 2, lo=-5, hi=5)}
+
+    def run(self, env, inp):
+        from ropt.config.enopt import LinearConstraintsConfig
+        tr = ens.make_transforms(var_scales=env.arr(inp["s"]), var_offsets=env.arr(inp["o"]))
+        lc = LinearConstraintsConfig.model_construct(coefficients=env.arr(inp["A"], False), lower_bounds=env.arr(inp["lo"], False),
+                                                     upper_bounds=env.arr(inp["hi"], False))
+        lc._immutable()
+        one = lc.apply_transformation(self.cfg0.variables, tr)
+        after = (lc.coefficients, lc.lower_bounds, lc.upper_bounds)
+        two = lc.apply_transformation(self.cfg0.variables, tr)
+        return {"one": one, "two": two, "after": after, "same_object_returned": one is lc}
+
+    def props(self, env, inp, oc):
+        if not oc.ok:
+            return [("no_internal_exception:" + type(oc.exc).__name__, SB(False))]
+        o = oc.value
+        A1, A2 = (np.asarray(vals(x.coefficients), dtype=object) for x in (o["one"], o["two"]))
+        Aa = np.asarray(vals(o["after"][0]), dtype=object)
+        props = [("given_object_not_rewritten", all_of(exact(Aa[0, j], inp["A"][0, j]) for j in range(2))),
+                 ("given_bounds_not_rewritten", And(exact(np.asarray(vals(o["after"][1]), dtype=object)[0], inp["lo"][0]),
+                                                    exact(np.asarray(vals(o["after"][2]), dtype=object)[0], inp["hi"][0]))),
+                 ("second_validation_gives_the_same_rows", all_of(close(A2[0, j], A1[0, j]) for j in range(2))),
+                 ("transformed_arrays_write_protected", SB(not o["one"].coefficients.flags.writeable and not o["one"].lower_bounds.flags.writeable))]
+        return props
+
+    def observe(self, env, inp, oc):
+        return {}
+
+
 class IndexArraysCase(Case):
     """Index arrays (which estimator / filter / sampler serves which function or variable) follow the same rule as
     every other per-item array: size one is broadcast, full length is kept, anything else is rejected.  (No solver
@@ -462,6 +518,9 @@ def build_cases(tier):
         add(AliasCase, kind)
     for pt in itertools.product(("absolute", "relative"), repeat=2):
         add(PerturbationCase, pt)
+    add(PerturbationCase, ("relative", "absolute"), scaled=True)
+    add(PerturbationCase, ("relative", "relative"), scaled=True)
+    add(LinearSectionCase)
     if tier == "thorough":
         for pt in itertools.product(("absolute", "relative"), repeat=3):
             add(PerturbationCase, pt)
